@@ -22,6 +22,13 @@ RULE = ("layer 1: after a real handshake per protection kind (cipher, MAC, "
         "sender's next record, else one of the integrity/decoding errors. "
         "layer 2: same adversary as MITM between two open connections; oracle "
         "on read(): fatal alert raised+sent, no data, closed, not resumable. "
+        "Directed additions: plaintext records of every type spliced "
+        "into the stream and into open connections (TLS 1.3 also after "
+        "HelloRetryRequest), maximal CBC padding over a length sweep, "
+        "old-epoch records after KeyUpdate, forged protected records "
+        "during the handshake, early_data offers (forged record after "
+        "the handshake; cumulative allowance, also with "
+        "ChangeCipherSpec records interleaved).   "
         "distinct_nontrivial = distinct (kind, mutation class, verdict) cells.")
 ASSUMPTIONS = [
     "python cipher implementations only",
